@@ -195,6 +195,7 @@ func runC05(r *Run) {
 	c05ReaderCompleteness(r)
 	c05Imports(r, site)
 	c05ListIntegrity(r)
+	c05RestartClockMonotonic(r)
 }
 
 // promotionAtoms classifies the facts of a path of the decision function.
